@@ -1019,3 +1019,52 @@ def _frame_columns(self):
 
 
 FrameVal.columns = property(_frame_columns)
+
+
+# --------------------------------------------------------------------------------------
+# the `.pandera` accessor every pandas DataFrame / Series carries (pandera.accessors.pandas_accessor)
+# --------------------------------------------------------------------------------------
+
+
+class AccessorVal:
+    """obj.pandera: holds the schema the object was last validated against (`add_schema`).  pandas caches the accessor per OBJECT
+    and does not carry it over to copies / derived frames, so a fresh object starts with `schema is None`; a pre-existing
+    (caller's) object may carry no schema, the very schema object being validated now (ghost `validating_schema`), or another."""
+
+    __pyvc_symbolic__ = True
+
+    def __init__(self, owner):
+        self.owner = owner
+        self._schema = _UNSET
+
+    @property
+    def schema(self):
+        if self._schema is _UNSET:
+            if not getattr(self.owner, "pre", False):
+                self._schema = None
+            else:
+                cand = cur().ghost.get("validating_schema")
+                opts = [("None", None), ("another_schema", None)] + ([("this_schema", None)] if cand is not None else [])
+                k = cur().choose(opts, f"{getattr(self.owner, 'name', 'obj')}.pandera.schema")
+                self._schema = None if k == 0 else (SAny(name="another_schema") if k == 1 else cand)
+        return self._schema
+
+    def add_schema(self, schema):
+        self._schema = schema
+        cur().event("accessor_write", self.owner)
+        return self.owner
+
+
+_UNSET = object()
+
+
+def _accessor(self):
+    a = self.__dict__.get("_pandera_accessor")
+    if a is None:
+        a = AccessorVal(self)
+        self.__dict__["_pandera_accessor"] = a
+    return a
+
+
+FrameVal.pandera = property(_accessor)
+SeriesVal.pandera = property(_accessor)
